@@ -13,7 +13,7 @@ CONSTANTS
   CondTypes = {"absent", "string", "int", "float", "bool"}
   RuleKinds = {"list"}
   CondScopes = {"trace"}
-  FieldVals = {"fv-str", "fv-int", "fv-hugenum", "fv-float", "fv-bool", "fv-nil", "fv-array", "fv-nestedarray", "fv-map", "fv-absent"}
+  FieldVals = {"fv-str", "fv-int", "fv-nil", "fv-array", "fv-map", "fv-absent"}
   Faithful = TRUE
 INVARIANTS TypeOK OnlyListed
 ACTION_CONSTRAINT Dump
